@@ -35,13 +35,20 @@ pub(crate) fn optimize(
     let mut plans = Vec::with_capacity(36);
     let mut new_plan = Vec::with_capacity(36);
 
-    if enabled_modes.contains(mode) {
+    let first_iteration = if enabled_modes.contains(mode) {
         plans.push(start_plan);
+        0
     } else {
+        // these plans have already processed the first character (if there is one)
         start_plan.add_switches(&mut plans, data.len(), true, enabled_modes);
-    }
+        if data.is_empty() {
+            0
+        } else {
+            1
+        }
+    };
 
-    for iteration in 0usize.. {
+    for iteration in first_iteration.. {
         let mut at_end = false;
         let use_as_start = iteration == 0;
 
